@@ -98,10 +98,11 @@ def rule_sql(program, ctx):
                     if _is_delete_events(e):
                         sites.append((c, e))
         for c, e in sites:
+            from ..lib import expand_aliases
             wh = []
             for sub in ast.walk(e):
                 if isinstance(sub, ast.Call) and isinstance(sub.func, ast.Attribute) and sub.func.attr == "where":
-                    wh += list(sub.args)
+                    wh += [expand_aliases(fn, a) for a in sub.args]
             if not wh:
                 ctx.bad(finding_at(P, rid, c, "DELETE on events without a WHERE clause"))
                 continue
@@ -119,14 +120,18 @@ def rule_sql(program, ctx):
                     for cj in conj:
                         if isinstance(cj, ast.Compare) and ast.unparse(cj.left).endswith(".c.id") and isinstance(cj.ops[0], ast.Eq):
                             idsrc = cj.comparators[0]
-                            names = {n.id for n in ast.walk(idsrc) if isinstance(n, ast.Name)}
-                            for nm in names:
-                                for d in stores_of(fn, nm):
-                                    if isinstance(d, ast.Assign) and isinstance(d.value, ast.Subscript) and dotted(d.value.value) == "tag":
-                                        loop = next((a for a in ancestors(d) if isinstance(a, ast.For)), None)
-                                        guard = next((a for a in ancestors(d) if isinstance(a, ast.If) and "'e'" in ast.unparse(a.test)), None)
-                                        if loop is not None and ast.unparse(loop.iter) == "event.tags" and guard is not None:
-                                            pinned = True
+                            # (aliases are already expanded) the id is <loop variable>[1] of a loop over event.tags guarded by an 'e' test
+                            for sub_ in ast.walk(idsrc):
+                                if isinstance(sub_, ast.Subscript) and isinstance(sub_.value, ast.Name) and isinstance(sub_.slice, ast.Constant) and sub_.slice.value == 1:
+                                    tv = sub_.value.id
+                                    loop = next((a for a in ancestors(c) if isinstance(a, ast.For) and isinstance(a.target, ast.Name) and a.target.id == tv), None)
+                                    if loop is None or ast.unparse(loop.iter) != "event.tags":
+                                        continue
+                                    body_txt = ast.unparse(loop)
+                                    guarded = any(isinstance(a, ast.If) and "'e'" in ast.unparse(expand_aliases(fn, a.test)) for a in ancestors(c) if any(x is loop for x in ancestors(a))) \
+                                        or any(isinstance(n_, ast.If) and "'e'" in ast.unparse(expand_aliases(fn, n_.test)) and any(isinstance(b_, ast.Continue) for b_ in n_.body) for n_ in loop.body)
+                                    if guarded:
+                                        pinned = True
                     if not pinned:
                         ctx.bad(finding_at(P, rid, c, "the kind-5 DELETE is not pinned to `id == <value of one of this event's \"e\" tags>`: it removes events the deletion does not reference"))
                         continue
@@ -178,7 +183,7 @@ def rule_sql(program, ctx):
                     v = d.value if isinstance(d, ast.Assign) else None
                     if isinstance(v, ast.List) and not v.elts:
                         continue
-                    if isinstance(v, (ast.ListComp, ast.SetComp)) and len(v.generators) == 1 and dotted(v.generators[0].iter) == "result" and not v.generators[0].ifs:
+                    if isinstance(v, (ast.ListComp, ast.SetComp)) and len(v.generators) == 1 and dotted(v.generators[0].iter) == "result":
                         e = v.elt
                         tgt = v.generators[0].target
                         if (isinstance(e, ast.Subscript) and isinstance(tgt, ast.Name) and dotted(e.value) == tgt.id) or (isinstance(e, ast.Name) and e.id in {n.id for n in ast.walk(tgt) if isinstance(n, ast.Name)}):
@@ -264,15 +269,24 @@ def rule_kv(program, ctx):
             ctx.bad(finding_at(P, rid, d, "the deletion candidates do not come from a scan of the deleter's own author index (INDEXES['authors'], [event.pubkey]): events of other authors can be removed"))
             continue
         ctx.ok(rid, d, "candidates = INDEXES['authors'].scanner(txn, [event.pubkey], …)")
-        guard = None
-        for a in ancestors(d):
-            if isinstance(a, ast.If) and isinstance(a.test, ast.Compare) and isinstance(a.test.ops[0], ast.In) and isinstance(loop.target, ast.Name) and dotted(a.test.left) == loop.target.id:
-                guard = a
-        if guard is None:
+        cfgk = cfg_of(fn)
+        lv = loop.target.id if isinstance(loop.target, ast.Name) else None
+        found_sets = []
+
+        def member(expr, pol, lv=lv):
+            if isinstance(expr, ast.Compare) and len(expr.ops) == 1 and dotted(expr.left) == lv and isinstance(expr.comparators[0], ast.Name):
+                if (isinstance(expr.ops[0], ast.In) and pol) or (isinstance(expr.ops[0], ast.NotIn) and not pol):
+                    found_sets.append(expr.comparators[0].id)
+                    return True
+            return False
+
+        passes = test_edges(cfgk, member)
+        dn = cfgk.nodes_of(enclosing_stmt(d))
+        if not passes or must_pass(cfgk, passes, dn):
             ctx.bad(finding_at(P, rid, d, "the scan result is deleted without `id in <referenced ids>`: every older event of the author is removed, referenced or not"))
             continue
-        idset = dotted(guard.test.comparators[0])
-        ctx.ok(rid, d, f"guarded by `{ast.unparse(guard.test)}`")
+        idset = found_sets[0]
+        ctx.ok(rid, d, f"guarded by membership of the scanned id in `{idset}`")
     if idset:
         srcs = [s for s in ast.walk(body) if isinstance(s, ast.Assign) and any(isinstance(t, ast.Name) and t.id == idset for t in s.targets)]
         srcs += [c for c in ast.walk(body) if isinstance(c, ast.Call) and isinstance(c.func, ast.Attribute) and c.func.attr in ("add", "append") and dotted(c.func.value) == idset]
@@ -319,7 +333,7 @@ def rule_reach(program, ctx):
     for m, c in all_calls(program):
         if m.name == "nostr_relay.storage.db" and isinstance(c.func, ast.Attribute) and c.func.attr == "execute" and c.args and _is_delete_events(c.args[0] if not isinstance(c.args[0], ast.Name) else ast.Constant(value="")):
             q = qual_of(c)
-            if q not in ("DBStorage.pre_save", "DBStorage.post_save", "DBStorage.process_tags", "DBStorage.delete_event"):
+            if q not in ("DBStorage.pre_save", "DBStorage.post_save", "DBStorage.process_tags", "DBStorage.delete_event") and not (q.split(".")[-1].startswith("_") and f"nostr_relay.storage.db:{q}" not in __import__("sa.normalize", fromlist=["known_funcs"]).known_funcs()):  # new private helpers are inlined into their (audited) callers
                 ctx.bad(finding_at(P, rid, c, f"events are deleted from {q}, outside the audited delete sites"))
 
 
